@@ -32,6 +32,9 @@ type concpComp struct{}
 func init() { register("concp", concpComp{}) }
 
 // the hook dispatcher is process-global: histories of this component run one at a time
+// OpTimeout: single operations of this component are whole runs / scans
+func (concpComp) OpTimeout() time.Duration { return 15 * time.Minute }
+
 func (concpComp) Parallel() bool { return false }
 
 type cop struct {
